@@ -535,20 +535,20 @@ def gen_ops(ctx, consts):
     r = ctx.rng
     th = ctx.tier == "thorough"
     ops = list(FIXED)
-    n = 1 if not th else 12
-    for _ in range(260 * n):
+    n = 1.4 if not th else 16
+    for _ in range(int(260 * n)):
         ops.append(g.basic())
-    for _ in range(200 * n):
+    for _ in range(int(200 * n)):
         ops.append(g.refresh())
-    for _ in range(110 * n):
+    for _ in range(int(110 * n)):
         ops.append(g.buffers("gnu"))
-    for _ in range(150 * n):
+    for _ in range(int(150 * n)):
         ops.append(g.buffers("eb"))
-    for _ in range(70 * n):
+    for _ in range(int(70 * n)):
         ops.append(g.failing(r.choice(["gnu", "eb"])))
-    for _ in range(130 * n):
+    for _ in range(int(130 * n)):
         ops.append(g.interleave())
-    for _ in range(120 * n):
+    for _ in range(int(120 * n)):
         ops.append(g.errors())
     for sz in ([300, 1500] if not th else [300, 1500, 1500, 4000, 8000]):
         ops.append(g.large(sz))
